@@ -256,6 +256,14 @@ class Engine:
             return False
         return True
 
+    def must_g(self, ec, cond):
+        """`must` under the current short-circuit guard of the expression being evaluated (`a and a[0].get(..)`)"""
+        if not ec.guard:
+            return self.must(ec.st, cond)
+        cond = simp(cond)
+        cs = cond.children() if z3.is_and(cond) else [cond]
+        return all(self.must(ec.st, z3.Implies(ec.g(), c)) for c in cs)
+
     def must(self, st, cond):
         """True iff cond is proved under the path condition (used for type-directed translation only)."""
         cond = simp(cond)
@@ -582,7 +590,7 @@ class Engine:
         rs = simp(r)
         if any(rs.eq(x) for x in g.get("_X", ())):
             return
-        if self.must(ec.st, r >= ck[1]):
+        if self.must_g(ec, r >= ck[1]):
             return
         if any(rs.eq(b) for b in g.get("_open", ())):
             g["_X"] = g.get("_X", ()) + (rs,)
@@ -607,7 +615,7 @@ class Engine:
         for b in opens:
             if z3.is_app(vs) and vs.decl().name() in ("none", "b", "i", "r", "s", "cls"):
                 keep.append(b)
-            elif vs.eq(V.ref(b)) or not self.must(ec.st, v != V.ref(b)):
+            elif vs.eq(V.ref(b)) or not self.must_g(ec, v != V.ref(b)):
                 if any(b.eq(x) for x in g.get("_X", ())):
                     g["_ckvalid"] = False   # a builder written since the checkpoint becomes reachable from elsewhere
             else:
@@ -884,7 +892,7 @@ class Engine:
             return T("s", self.str_repeat(a.t, smt.num_int(b.t), ec))
         if a.k == "s" and isinstance(op, ast.Mod):
             raise OutOfSubset("% string formatting")
-        if a.k == "V" and b.k == "V" and self.must(ec.st, z3.And(is_obj(a.t), is_obj(b.t))):
+        if a.k == "V" and b.k == "V" and self.must_g(ec, z3.And(is_obj(a.t), is_obj(b.t))):
             self.assumptions.add("A-OBJOP: an arithmetic operator on two non-builtin objects returns an arbitrary fresh value and may raise")
             flag = fresh("op_raises", BoolS)
             c = fresh("exc_cls", IntS)
@@ -908,17 +916,17 @@ class Engine:
         if isinstance(op, ast.Add):
             va, vb = toV(a), toV(b)
             # str + str, list + list, number + number
-            if self.must(ec.st, z3.And(is_listlike(va), is_listlike(vb))):
+            if self.must_g(ec, z3.And(is_listlike(va), is_listlike(vb))):
                 return self.list_concat(va, vb, ec)
-            if self.must(ec.st, z3.And(is_s(va), is_s(vb))):
+            if self.must_g(ec, z3.And(is_s(va), is_s(vb))):
                 return T("s", z3.Concat(V.sv(va), V.sv(vb)))
-            if self.must(ec.st, z3.And(smt.is_num(va), smt.is_num(vb))):
+            if self.must_g(ec, z3.And(smt.is_num(va), smt.is_num(vb))):
                 return tV(z3.If(z3.Or(is_r(va), is_r(vb)), V.r(smt.num_real(va) + smt.num_real(vb)),
                                 V.i(smt.num_int(va) + smt.num_int(vb))))
             # unknown: TypeError unless both str or both numbers (lists need allocation: out of subset here)
             okstr = z3.And(is_s(va), is_s(vb))
             oknum = z3.And(smt.is_num(va), smt.is_num(vb))
-            if not self.must(ec.st, z3.Not(z3.And(is_listlike(va), is_listlike(vb)))):
+            if not self.must_g(ec, z3.Not(z3.And(is_listlike(va), is_listlike(vb)))):
                 raise OutOfSubset("'+' on operands that may be lists (line %d)" % line)
             ec.may_raise(z3.Not(z3.Or(okstr, oknum)), "TypeError", line, "+ on incompatible operands")
             return tV(z3.If(okstr, V.s(z3.Concat(V.sv(va), V.sv(vb))),
@@ -1124,13 +1132,13 @@ class Engine:
         dct = z3.And(is_ref(v), sub(typ(r), cid("dict")))
         strv = is_s(v)
         n = h.llen(r)
-        if i.k != "s" and self.must(ec.st, lst):
+        if i.k != "s" and self.must_g(ec, lst):
             # known to be a list/tuple: direct indexing (keeps the terms small)
             ec.may_raise(z3.Not(smt.is_intlike(vi)), "TypeError", line, "list index must be int")
             ii = smt.num_int(vi) if i.k == "V" else as_int(i)
             ec.may_raise(z3.Or(ii >= n, ii < -n), "IndexError", line, "list index out of range")
             return tV(h.lget(r, z3.If(ii < 0, ii + n, ii)))
-        if self.must(ec.st, dct):
+        if self.must_g(ec, dct):
             ec.may_raise(z3.Not(h.dhas(r, vi)), "KeyError", line, "missing key")
             return tV(h.dget(r, vi))
         if i.k == "s":
@@ -1175,9 +1183,9 @@ class Engine:
             lo, hi = self.slice_bounds(sl, n, ec, line)
             return T("s", z3.SubString(x.t, lo, z3.If(hi > lo, hi - lo, 0)))
         v = toV(x)
-        if self.must(ec.st, is_s(v)):
+        if self.must_g(ec, is_s(v)):
             return self.slice_(T("s", V.sv(v)), sl, ec, line)
-        if not self.must(ec.st, is_listlike(v)):
+        if not self.must_g(ec, is_listlike(v)):
             raise OutOfSubset("slice of a value not known to be str or list (line %d)" % line)
         r0 = V.rv(v)
         n = h.llen(r0)
@@ -1607,6 +1615,24 @@ class Engine:
         ec2.fx = getattr(ec, "fx", None)
         return self.ev(e.args[0], ec2)
 
+    def sp_in_old(self, e, ec):
+        """in_old(f, a1, ..., an): the arguments are evaluated in the CURRENT state, the spec function f is applied in the OLD
+        (entry) heap - e.g. `in_old(label_at, elements, num_i(val(table, n)), n)`"""
+        if ec.old is None:
+            raise CheckerError("in_old() outside a postcondition / invariant")
+        fname = e.args[0].id
+        vals = [self.ev(a, ec) for a in e.args[1:]]
+        env = dict(ec.old.env)
+        names = []
+        for j, v in enumerate(vals):
+            env["_io%d" % j] = v
+            names.append("_io%d" % j)
+        st2 = St(env, ec.old.heap, ec.st.pc, ghost=dict(ec.st.ghost))
+        ec2 = EC(st2, spec=True, old=None, bound=ec.bound)
+        ec2.fx = getattr(ec, "fx", None)
+        call = ast.parse("%s(%s)" % (fname, ", ".join(names)), mode="eval").body
+        return self.ev(call, ec2)
+
     def sp_at_entry(self, e, ec):
         """at_entry(expr): current variable values, but every heap read (and spec function) in the ENTRY heap of the function"""
         fx = getattr(ec, "fx", None)
@@ -1749,6 +1775,17 @@ class Engine:
         l = toV(self.ev(e.args[0], ec))
         j = self.coerce(self.ev(e.args[1], ec), "i", ec)
         return tV(ec.st.heap.lget(V.rv(l), j))
+
+    def sp_val(self, e, ec):
+        """val(d, k): value stored under key k of a dict / attribute k of an object (no list reading)"""
+        d = toV(self.ev(e.args[0], ec))
+        k = toV(self.ev(e.args[1], ec))
+        return tV(ec.st.heap.dget(V.rv(d), k))
+
+    def sp_llen(self, e, ec):
+        """llen(xs): length of a list / tuple (no str / dict reading)"""
+        l = toV(self.ev(e.args[0], ec))
+        return T("i", ec.st.heap.llen(V.rv(l)))
 
     def sp_key_index(self, e, ec):
         """key_index(d, k): position of key k in the iteration order of dict d (meaningful when has(d, k))"""
@@ -1938,7 +1975,7 @@ class Engine:
         present = z3.And(is_obj(v), h.dhas(V.rv(v), key))
         if len(e.args) == 3:
             d = self.ev(e.args[2], ec)
-            if self.must(ec.st, z3.Implies(ec.g(), present)):
+            if self.must_g(ec, z3.Implies(ec.g(), present)):
                 return tV(h.dget(V.rv(v), key))
             return tV(z3.If(present, h.dget(V.rv(v), key), toV(d)))
         ec.may_raise(z3.Not(present), "AttributeError", e.lineno, "getattr")
@@ -1968,12 +2005,12 @@ class Engine:
         x = self.ev(e.args[0], ec)
         v = toV(x)
         h = ec.st.heap
-        if self.must(ec.st, is_listlike(v)):
+        if self.must_g(ec, is_listlike(v)):
             r0 = V.rv(v)
             r = self.new_ref(ec, "list")
             self.list_set_all(ec, r, h.llen(r0), h.sel("lel", r0))
             return tV(V.ref(r))
-        if self.must(ec.st, is_dictlike(v)):
+        if self.must_g(ec, is_dictlike(v)):
             r0 = V.rv(v)
             r = self.new_ref(ec, "list")
             self.list_set_all(ec, r, h.dlen(r0), h.sel("dkey", r0))
@@ -2305,7 +2342,7 @@ class Engine:
         x = toV(self.ev(e.args[0], ec))
         h = ec.st.heap
         r = V.rv(v)
-        if not self.must(ec.st, is_listlike(x)):
+        if not self.must_g(ec, is_listlike(x)):
             raise OutOfSubset("extend() with an argument not known to be a list (line %d)" % e.lineno)
         ec.may_raise(z3.Not(smt.is_kind(v, "list")), "AttributeError", e.lineno, "extend on a non-list")
         if ec.guard:
@@ -2333,7 +2370,7 @@ class Engine:
 
     def me_get(self, recv, e, ec):
         v = toV(recv)
-        if not self.must(ec.st, z3.And(is_ref(v), sub(typ(V.rv(v)), cid("dict")))):
+        if not self.must_g(ec, z3.And(is_ref(v), sub(typ(V.rv(v)), cid("dict")))):
             return None
         k = toV(self.ev(e.args[0], ec))
         d = toV(self.ev(e.args[1], ec)) if len(e.args) > 1 else V.none
@@ -2342,12 +2379,12 @@ class Engine:
 
     def me_update(self, recv, e, ec):
         v = toV(recv)
-        if not self.must(ec.st, z3.And(is_ref(v), sub(typ(V.rv(v)), cid("dict")))):
+        if not self.must_g(ec, z3.And(is_ref(v), sub(typ(V.rv(v)), cid("dict")))):
             return None
         if len(e.args) != 1 or e.keywords:
             raise OutOfSubset("dict.update form (line %d)" % e.lineno)
         o = toV(self.mat(self.ev(e.args[0], ec), ec))
-        if not self.must(ec.st, z3.And(is_ref(o), sub(typ(V.rv(o)), cid("dict")))):
+        if not self.must_g(ec, z3.And(is_ref(o), sub(typ(V.rv(o)), cid("dict")))):
             raise OutOfSubset("dict.update with an argument not known to be a dict (line %d)" % e.lineno)
         if ec.guard:
             raise OutOfSubset("conditional mutation inside an expression")
@@ -2379,7 +2416,7 @@ class Engine:
         if e.args:
             return None
         h = ec.st.heap
-        if self.must(ec.st, z3.And(is_ref(v), sub(typ(V.rv(v)), cid("dict")))):
+        if self.must_g(ec, z3.And(is_ref(v), sub(typ(V.rv(v)), cid("dict")))):
             r0 = V.rv(v)
             d = self.dict_arrays(ec, r0)
             r = self.new_ref(ec, "dict")
@@ -2392,7 +2429,7 @@ class Engine:
                 a2[nm] = z3.Store(h.a[nm], r, d[nm])
             h.a = a2
             return tV(V.ref(r))
-        if self.must(ec.st, smt.is_kind(v, "list")):
+        if self.must_g(ec, smt.is_kind(v, "list")):
             r0 = V.rv(v)
             r = self.new_ref(ec, "list")
             self.list_set_all(ec, r, h.llen(r0), h.sel("lel", r0))
@@ -2401,7 +2438,7 @@ class Engine:
 
     def me_add(self, recv, e, ec):
         v = toV(recv)
-        if not self.must(ec.st, smt.is_kind(v, "set")):
+        if not self.must_g(ec, smt.is_kind(v, "set")):
             return None
         if ec.guard:
             raise OutOfSubset("conditional mutation inside an expression")
@@ -2484,6 +2521,8 @@ class Engine:
                     v = self.alloc_dict([], ec)
                 elif fac and ast.unparse(fac[0]) == "set":
                     v = self.alloc_dict([], ec, "set")
+                elif fac and isinstance(fac[0], ast.Lambda) and not fac[0].args.args and isinstance(fac[0].body, (ast.List, ast.Dict, ast.Set)):
+                    v = self.mat(self.ev(fac[0].body, ec), ec)     # default_factory=lambda: [literal, ...]
                 elif dfl:
                     v = self.ev(dfl[0], ec)
                 else:
@@ -2680,9 +2719,21 @@ class Engine:
                 a[n] = z3.Store(a[n], r, fresh(n + "_at", HEAP_SORTS[n].range()))
         na = fresh("alloc", IntS)
         st.assume(na >= h.alloc)
+        old_alloc = h.alloc
+        base = Heap(h.a, h.alloc)
         h.alloc = na
         h.a = a
-        from .tr import closed_at
+        from .tr import closed_at, forall as _forall
+        # objects allocated by the havocked code (references in [old frontier, new frontier)) are closed: what they hold is
+        # allocated.  Stated on the base arrays (reads of such objects resolve to them through the store chain).
+        r_, i_, k_ = z3.Int("r!"), z3.Int("i!"), z3.Const("k!", V)
+        rng = z3.And(r_ >= old_alloc, r_ < na)
+        okv = lambda t: z3.And(V.rv(t) >= 0, V.rv(t) < na)
+        st.assume(_forall([r_, i_], z3.Implies(z3.And(rng, i_ >= 0, i_ < base.llen(r_), is_ref(base.lget(r_, i_))), okv(base.lget(r_, i_))),
+                          [base.lget(r_, i_)]))
+        st.assume(_forall([r_, k_], z3.Implies(z3.And(rng, base.dhas(r_, k_), is_ref(base.dget(r_, k_))), okv(base.dget(r_, k_))),
+                          [base.dget(r_, k_)]))
+        st.assume(_forall([r_, k_], z3.Implies(z3.And(rng, base.dhas(r_, k_), is_ref(k_)), okv(k_)), [base.dhas(r_, k_)]))
         for r in list(objs) + [r for r, _ in keyed]:
             for f in dict_wf_at(h, r) + closed_at(h, r):
                 st.assume(f)
